@@ -312,6 +312,7 @@ public:
 
   HashMap<String, Variant>& toMap()
   {
+    NSTD_VERIF_RC_YIELD("ref", &data->ref);
     if(data->type != mapType || data->ref > 1)
     {
       Data* newData = (Data*)new char[sizeof(Data) + sizeof(HashMap<String, Variant>)];
@@ -323,11 +324,13 @@ public:
       data->ref = 1;
       return *map;
     }
+    NSTD_VERIF_RC_YIELD("write", &data->ref);
     return *(HashMap<String, Variant>*)(data + 1);
   }
 
   Variant& operator=(const HashMap<String, Variant>& other)
   {
+    NSTD_VERIF_RC_YIELD("ref", &data->ref);
     if(data->type != mapType || data->ref > 1)
     {
       clear();
@@ -338,6 +341,7 @@ public:
       data->ref = 1;
     }
     else
+      NSTD_VERIF_RC_YIELD_EXPR("write", &data->ref)
       *(HashMap<String, Variant>*)(data + 1) = other;
     return *this;
   }
@@ -352,6 +356,7 @@ public:
 
   List<Variant>& toList()
   {
+    NSTD_VERIF_RC_YIELD("ref", &data->ref);
     if(data->type != listType || data->ref > 1)
     {
       Data* newData = (Data*)new char[sizeof(Data) + sizeof(List<Variant>)];
@@ -363,11 +368,13 @@ public:
       data->ref = 1;
       return *list;
     }
+    NSTD_VERIF_RC_YIELD("write", &data->ref);
     return *(List<Variant>*)(data + 1);
   }
 
   Variant& operator=(const List<Variant>& other)
   {
+    NSTD_VERIF_RC_YIELD("ref", &data->ref);
     if(data->type != listType || data->ref > 1)
     {
       clear();
@@ -378,6 +385,7 @@ public:
       data->ref = 1;
     }
     else
+      NSTD_VERIF_RC_YIELD_EXPR("write", &data->ref)
       *(List<Variant>*)(data + 1) = other;
     return *this;
   }
@@ -392,6 +400,7 @@ public:
 
   Array<Variant>& toArray()
   {
+    NSTD_VERIF_RC_YIELD("ref", &data->ref);
     if(data->type != arrayType || data->ref > 1)
     {
       Data* newData = (Data*)new char[sizeof(Data) + sizeof(Array<Variant>)];
@@ -403,11 +412,13 @@ public:
       data->ref = 1;
       return *array;
     }
+    NSTD_VERIF_RC_YIELD("write", &data->ref);
     return *(Array<Variant>*)(data + 1);
   }
 
   Variant& operator=(const Array<Variant>& other)
   {
+    NSTD_VERIF_RC_YIELD("ref", &data->ref);
     if(data->type != arrayType || data->ref > 1)
     {
       clear();
@@ -418,12 +429,14 @@ public:
       data->ref = 1;
     }
     else
+      NSTD_VERIF_RC_YIELD_EXPR("write", &data->ref)
       *(Array<Variant>*)(data + 1) = other;
     return *this;
   }
 
   String& toString()
   {
+    NSTD_VERIF_RC_YIELD("ref", &data->ref);
     if(data->type != stringType || data->ref > 1)
     {
       Data* newData = (Data*)new char[sizeof(Data) + sizeof(String)];
@@ -435,6 +448,7 @@ public:
       data->ref = 1;
       return *string;
     }
+    NSTD_VERIF_RC_YIELD("write", &data->ref);
     return *(String*)(data + 1);
   }
 
@@ -456,6 +470,7 @@ public:
 
   Variant& operator=(const String& other)
   {
+    NSTD_VERIF_RC_YIELD("ref", &data->ref);
     if(data->type != stringType || data->ref > 1)
     {
       clear();
@@ -466,6 +481,7 @@ public:
       data->ref = 1;
     }
     else
+      NSTD_VERIF_RC_YIELD_EXPR("write", &data->ref)
       *(String*)(data + 1) = other;
     return *this;
   }
